@@ -617,7 +617,8 @@ def run_ma_prep(case):
         for a in AGENTS:
             impl.append(canon_tensor(out[a]))
         if list(out.keys()) != AGENTS:
-            problems.append(f"preprocessed keys {list(out.keys())}")
+            problems.append(f"preprocess_observation returns the agents in order {list(out.keys())}; agent_ids / "
+                            f"actors / critics are ordered {AGENTS}")
     else:
         # a group's tensor is the concatenation (assemble order) of its members' tensors
         for g, mem in GROUPS.items():
@@ -1431,17 +1432,47 @@ def selftest(chk: Check) -> None:
         high = torch.as_tensor(observation_space.high, dtype=observation.dtype)
         return (observation - low) / (high - low + 1)          # 256 instead of 255
 
-    faults = [("one-hot off by one", "F", FProxy(orig_F)),
-              ("batch dimension inferred wrongly for a batch of one", "maybe_add_batch_dim", mabd_batch_of_one),
-              ("normalisation with a wrong bound", "apply_image_normalization", norm_wrong_bound)]
-    for name, attr, repl in faults:
+    def norm_in_place(observation, observation_space):
+        out = orig_norm(observation, observation_space)
+        if out is observation or not isinstance(observation, torch.Tensor):
+            return out
+        observation.copy_(out)                                  # scaling written back into the caller's buffer
+        return observation
+
+    orig_vect = au.get_vect_dim
+
+    def vect_first_sorted_member(observation, observation_space):
+        from gymnasium import spaces as gs
+        if isinstance(observation_space, gs.Dict):
+            return orig_vect(next(iter(observation.values())), next(iter(observation_space.spaces.values())))
+        return orig_vect(observation, observation_space)
+
+    from agilerl.algorithms.core import base as core_base
+
+    def position_from_sorted_space(self, agent_id):
+        known = list(self.observation_space.spaces.keys())
+        return known.index(agent_id) if agent_id in known else len(known)
+
+    for f in sorted((ROOT / "corpus" / "C15").glob("*.json")):
+        if f.name.startswith(("purity_", "vectdim_dict_", "agent_ids_")):
+            c = json.loads(f.read_text())
+            mini.append(c.get("case", c))
+    faults = [("one-hot off by one", au, "F", FProxy(orig_F)),
+              ("batch dimension inferred wrongly for a batch of one", au, "maybe_add_batch_dim", mabd_batch_of_one),
+              ("normalisation with a wrong bound", au, "apply_image_normalization", norm_wrong_bound),
+              ("normalisation written into the caller's buffer", au, "apply_image_normalization", norm_in_place),
+              ("get_vect_dim pairs the first observation member with the first sorted space member", au,
+               "get_vect_dim", vect_first_sorted_member),
+              ("agent positions taken from the sorted observation-space keys", core_base.MultiAgentRLAlgorithm,
+               "_agent_position", position_from_sorted_space)]
+    for name, owner, attr, repl in faults:
         q = _Quiet(chk)
-        old = getattr(au, attr)
-        setattr(au, attr, repl)
+        old = getattr(owner, attr)
+        setattr(owner, attr, repl)
         try:
             bad = run_suite(q, mini, account=False)
         finally:
-            setattr(au, attr, old)
+            setattr(owner, attr, old)
         if bad == 0 or not q.violations:
             raise InfraError(f"C15 self-test: seeded fault '{name}' was not noticed")
         chk.notes.append(f"self-test: {name} detected ({bad} failing cases, e.g. {q.violations[0]['what'][:90]})")
